@@ -14,6 +14,7 @@ import (
 	"github.com/zclconf/go-cty/cty/convert"
 	"github.com/zclconf/go-cty/cty/function/stdlib"
 	ctyjson "github.com/zclconf/go-cty/cty/json"
+	"github.com/zclconf/go-cty/cty/msgpack"
 )
 
 var canaryBaseline string
@@ -68,6 +69,34 @@ func canaryNow() (s string) {
 		add(string(js))
 	} else {
 		add("err")
+	}
+	// the decoders on the same bytes as before (what a decoder remembers about a document must not change what the
+	// next reading of the same document gives): dynamic-value wrappers whose type descriptions carry optional
+	// attributes, an implied type, a type description
+	for i, doc := range []string{`{"type":["object",{"a":"string","b":"number"},["b"]],"value":null}`, `{"type":["list",["object",{"a":"string"},["a"]]],"value":[]}`} {
+		if r, err := ctyjson.Unmarshal([]byte(doc), cty.DynamicPseudoType); err == nil {
+			add(fp(r))
+		} else {
+			add("err")
+		}
+		ty := c17WrapperTypes[i]
+		mp := append(append([]byte{0x92}, mpHeader("bin", len(ty), 0)...), ty...)
+		mp = append(mp, c17WrapperMsgpackValues[i]...)
+		if r, err := msgpack.Unmarshal(mp, cty.DynamicPseudoType); err == nil {
+			add(fp(r))
+		} else {
+			add("err")
+		}
+		if ity, err := msgpack.ImpliedType(mp); err == nil {
+			add(cty.VerifFingerprintType(ity))
+		} else {
+			add("err")
+		}
+		if uty, err := ctyjson.UnmarshalType([]byte(ty)); err == nil {
+			add(cty.VerifFingerprintType(uty))
+		} else {
+			add("err")
+		}
 	}
 	add(fp(cty.NumberIntVal(3).Equals(cty.MustParseNumberVal("3.0"))))
 	add(cty.UnknownVal(cty.String).RefineNotNull().Range().StringPrefix())
